@@ -120,7 +120,7 @@ package pace
 //@   safety all
 
 //@ pred validPace(p *Pace) { p != nil && p.keyGeneratorEc != nil && validNfc(p.nfcSession) && p.document != nil && p.password != nil
-//@        && (p.document.Mf.CardSecurity != nil ==> p.document.Mf.CardSecurity.SecurityInfos != nil) }
+//@        && (p.document.Mf.CardSecurity != nil ==> p.document.Mf.CardSecurity.SecurityInfos != nil && p.document.Mf.CardSecurity.SD != nil) }
 // frame of every PACE step that talks to the chip before the session is installed
 // (nfc.sm itself is only written by mutualAuthGmEcDh)
 
@@ -243,6 +243,7 @@ package pace
 //@   ensures "session-still-usable": validNfc(pace.nfcSession) && pace.nfcSession.readFileMaxChunks == old(pace.nfcSession.readFileMaxChunks)
 //@   ensures "file-loaded-or-error": result == nil ==> pace.document.Mf.CardSecurity != nil && pace.document.Mf.CardSecurity.SecurityInfos != nil
 //@   ensures pace.nfcSession.sm == old(pace.nfcSession.sm)
+//@   ensures "transport-and-document-still-usable": validNfc(pace.nfcSession) && (pace.document.Mf.CardSecurity != nil ==> pace.document.Mf.CardSecurity.SecurityInfos != nil && pace.document.Mf.CardSecurity.SD != nil)
 //@   assigns pace.document.Mf.CardSecurity, pace.nfcSession.maxLe, pace.nfcSession.lastApduLogEntry, content(pace.nfcSession.apduLog), content(pace.nfcSession.sm), pace.nfcSession.lastSW, pace.nfcSession.lastProtected
 //@   safety all
 
@@ -256,6 +257,7 @@ package pace
 //@   ensures "cam-success-needs-evidence": err == nil && paceConfig.mapping == 2 ==> evidence != nil
 //@   ensures "no-session-unless-the-chip-token-verified": err != nil && paceConfig.mapping != 2 ==> pace.nfcSession.sm == old(pace.nfcSession.sm)
 //@   ensures fresh(evidence)
+//@   ensures "transport-and-document-still-usable": validNfc(pace.nfcSession) && (pace.document.Mf.CardSecurity != nil ==> pace.document.Mf.CardSecurity.SecurityInfos != nil && pace.document.Mf.CardSecurity.SD != nil)
 //@   assigns pace.document.Mf.CardSecurity, pace.nfcSession.maxLe, pace.nfcSession.sm, pace.nfcSession.lastApduLogEntry, content(pace.nfcSession.apduLog), content(pace.nfcSession.sm), pace.nfcSession.lastSW, pace.nfcSession.lastProtected
 //@   safety all
 
@@ -268,6 +270,7 @@ package pace
 //@   proves "fail-closed-for-generic-mapping": result != nil && !result.Success && (paceConfig == nil || paceConfig.mapping != 2) ==> pace.nfcSession.sm == old(pace.nfcSession.sm)
 //@   ensures "cam-reported-only-on-success": camResult != nil ==> err == nil && result != nil && result.Success && camResult.Success && camResult.Evidence != nil
 //@   ensures fresh(result) && fresh(camResult)
+//@   ensures "transport-and-document-still-usable": validNfc(pace.nfcSession) && (pace.document.Mf.CardSecurity != nil ==> pace.document.Mf.CardSecurity.SecurityInfos != nil && pace.document.Mf.CardSecurity.SD != nil)
 //@   assigns pace.document.Mf.CardSecurity, pace.nfcSession.maxLe, pace.nfcSession.sm, pace.nfcSession.lastApduLogEntry, content(pace.nfcSession.apduLog), content(pace.nfcSession.sm), pace.nfcSession.lastSW, pace.nfcSession.lastProtected
 //@   safety all
 
